@@ -104,17 +104,17 @@ type Lemma struct {
 }
 
 type State struct {
-	Frames []*Frame
-	Heap   map[int]Val
-	Next   *int // shared cell counter (monotone across clones)
-	PC     []*T
-	Lemmas []*Lemma
-	Fresh  map[int]bool // cells allocated during execution (not part of the input footprint)
-	Trace  []string     // notes: contract applications, havocs
-	Ghost  map[string]Val
-	Depth  int
-	Steps  *int
-	Visits map[*ssa.BasicBlock]int
+	Frames    []*Frame
+	Heap      map[int]Val
+	Next      *int // shared cell counter (monotone across clones)
+	PC        []*T
+	Lemmas    []*Lemma
+	Fresh     map[int]bool // cells allocated during execution (not part of the input footprint)
+	Trace     []string     // notes: contract applications, havocs
+	Ghost     map[string]Val
+	Depth     int
+	Steps     *int
+	Visits    map[*ssa.BasicBlock]int
 	CellTypes map[int]types.Type // Go type of input cells (shared)
 }
 
